@@ -767,7 +767,7 @@ func main() {
 		close(jobCh)
 		wg.Wait()
 	}
-	runJobs(jobs, 12)
+	runJobs(jobs, 16)
 	runJobs(hooked, 1)
 	vhlib.Summary(map[string]any{"cases": len(cases), "runs": runs, "jobs": len(jobs) + len(hooked), "hooked_runs": len(hooked), "error_count_drift": countDrift, "second_runs_regenerating": regenerating, "watchdog_seconds": watchdog.Seconds(), "fails": fails, "worker_counts": workers, "reps": reps,
 		"hooks": hooksPresent, "traced_runs": traced, "hook_events": hookEventCount(), "perturbations": perturbCount(), "signatures": sigCount})
